@@ -227,60 +227,141 @@ def erases(n):
     return [x for x in walk(n) if x.get("k") == "MCall" and x.get("n") == "erase" and render(x.get("obj")).endswith("_pool")]
 
 
+def _is_pool_find(e, keyname=None, keydecl=None):
+    """e is `_pool.find(<key>)` (through value-initialising wrappers)"""
+    e = L.unwrap(e)
+    while e.get("k") in ("Construct", "TempObj") and len(e.get("a", [])) == 1:
+        e = L.unwrap(e["a"][0])
+    if e.get("k") == "MCall" and e.get("n") == "find" and render(e.get("obj")).endswith("_pool") and len(e.get("a", [])) == 1:
+        k0 = L.unwrap(e["a"][0])
+        while k0.get("k") in ("Construct", "TempObj") and len(k0.get("a", [])) == 1:
+            k0 = L.unwrap(k0["a"][0])
+        return (keyname is None or k0.get("n") == keyname) and (keydecl is None or k0.get("d") == keydecl)
+    return False
+
+
+def _end_compare(c, itd):
+    """'!=' / '==' if c compares the iterator itd with _pool.end(), else None"""
+    c = L.unwrap(c)
+    if c.get("k") in ("OpCall", "Bin") and c.get("op") in ("!=", "=="):
+        ops = c.get("a") or [c.get("lhs"), c.get("rhs")]
+        txt = [render(L.unwrap(x)) for x in ops]
+        ds = [L.unwrap(x).get("d") for x in ops]
+        if itd in ds and any(t.endswith("_pool.end()") or t.endswith("_pool.cend()") for t in txt):
+            return c["op"]
+    return None
+
+
+def lookup_helper(fn, call):
+    """a lookup behind a helper: `static bool _find_chunk(void* address, Iterator& it) { it = _pool.find(address); return it != _pool.end(); }`
+    -> (index of the address parameter, index of the iterator parameter, value returned when the address was found) or None"""
+    if call.get("k") not in ("Call", "MCall") or call.get("cdecl") is None:
+        return None
+    memo = fn.facts.__dict__.setdefault("_c20_lookup_helpers", {})
+    if call["cdecl"] in memo:
+        return memo[call["cdecl"]]
+    res = None
+    g = next((f for f in fn.facts.functions if f.d.get("decl") == call["cdecl"] and f.body is not None), None)
+    if g is not None and len(g.params) == 2 and not g.d.get("virtual"):
+        stm = g.body.get("s", []) if g.body.get("k") == "Block" else [g.body]
+        stm = [x for x in stm if x.get("k") != "Null_"]
+        for ai, ii in ((0, 1), (1, 0)):
+            ad, idd = g.params[ai]["d"], g.params[ii]["d"]
+            assigned = False
+            for x in stm[:-1]:
+                lhs = rhs = None
+                if x.get("k") == "OpCall" and x.get("op") == "=" and len(x.get("a") or []) == 2:
+                    lhs, rhs = x["a"]
+                elif x.get("k") == "Assign" and x.get("op") == "=":
+                    lhs, rhs = x["lhs"], x["rhs"]
+                if lhs is not None and L.unwrap(lhs).get("d") == idd and _is_pool_find(rhs, keydecl=ad):
+                    assigned = True
+                elif x.get("k") != "Decl":
+                    assigned = False
+                    break
+            if assigned and stm and stm[-1].get("k") == "Return" and stm[-1].get("e") is not None:
+                e = L.unwrap(stm[-1]["e"])
+                neg = False
+                while e.get("k") == "Un" and e.get("op") == "!":
+                    e = L.unwrap(e["e"])
+                    neg = not neg
+                op = _end_compare(e, idd)
+                if op is not None:
+                    res = (ai, ii, (op == "!=") != neg)
+                    break
+    memo[call["cdecl"]] = res
+    return res
+
+
 def lookup_of(fn, param):
-    """the local iterator initialised by _pool.find(<param>) -> decl id or None"""
+    """the local iterator that holds the result of _pool.find(<param>) - initialised with it, or filled by a lookup helper
+    that receives <param> and the iterator by reference -> decl id or None"""
     for n in fn.nodes():
-        if n.get("k") == "Var" and n.get("init") is not None:
-            i = L.unwrap(n["init"])
-            while i.get("k") in ("Construct", "TempObj") and len(i.get("a", [])) == 1:
-                i = L.unwrap(i["a"][0])
-            if i.get("k") == "MCall" and i.get("n") == "find" and render(i.get("obj")).endswith("_pool") and \
-                    len(i.get("a", [])) == 1 and L.unwrap(i["a"][0]).get("n") == param:
-                return n["d"]
+        if n.get("k") == "Var" and n.get("init") is not None and _is_pool_find(n["init"], keyname=param):
+            return n["d"]
+    for n in fn.nodes():
+        if n.get("k") in ("Call", "MCall"):
+            h = lookup_helper(fn, n)
+            a = n.get("a") or []
+            if h is not None and len(a) == 2 and L.unwrap(a[h[0]]).get("n") == param and L.unwrap(a[h[1]]).get("k") == "Ref" and L.unwrap(a[h[1]]).get("dk") == "local":
+                return L.unwrap(a[h[1]])["d"]
+    return None
+
+
+def found_when(fn, itd, c, depth=0):
+    """truth value the condition c has when the looked-up address was found; None if c is not (only) the lookup test.
+    Spellings: it != _pool.end(), it == _pool.end(), the call of a lookup helper that filled the iterator, a bool local
+    initialised with either, each possibly negated"""
+    c = L.unwrap(c)
+    neg = False
+    while c.get("k") == "Un" and c.get("op") == "!":
+        c = L.unwrap(c["e"])
+        neg = not neg
+    while c.get("k") in ("Construct", "TempObj") and len(c.get("a", [])) == 1:
+        c = L.unwrap(c["a"][0])
+    op = _end_compare(c, itd)
+    if op is not None:
+        return (op == "!=") != neg
+    if c.get("k") in ("Call", "MCall"):
+        h = lookup_helper(fn, c)
+        a = c.get("a") or []
+        if h is not None and len(a) == 2 and L.unwrap(a[h[1]]).get("d") == itd:
+            return h[2] != neg
+    if c.get("k") == "Ref" and c.get("dk") == "local" and depth < 3:
+        init = fn_local_init(fn, c.get("d"))
+        assigned = any((x.get("k") == "Assign" and L.unwrap(x["lhs"]).get("d") == c.get("d")) or
+                       (x.get("k") == "Un" and x.get("op") in ("++", "--", "&") and L.unwrap(x["e"]).get("d") == c.get("d")) for x in fn.nodes())
+        if init is not None and not assigned:
+            v = found_when(fn, itd, init, depth + 1)
+            return None if v is None else (v != neg)
     return None
 
 
 def lookup_tests(fn, itd):
-    """[(If node, found_when)]: branches whose whole condition compares the lookup iterator with _pool.end();
-    found_when = truth value of the condition when the address was found"""
+    """[(If node, found_when)]: branches whose whole condition is the lookup test"""
     out = []
     for n in fn.nodes():
         if n.get("k") == "If":
-            c = L.unwrap(n["c"])
-            neg = False
-            while c.get("k") == "Un" and c.get("op") == "!":
-                c = L.unwrap(c["e"])
-                neg = not neg
-            if c.get("k") in ("OpCall", "Bin") and c.get("op") in ("!=", "=="):
-                ops = c.get("a") or [c.get("lhs"), c.get("rhs")]
-                txt = [render(L.unwrap(x)) for x in ops]
-                ds = [L.unwrap(x).get("d") for x in ops]
-                if itd in ds and any(t.endswith("_pool.end()") or t.endswith("_pool.cend()") for t in txt):
-                    out.append((n, (c["op"] == "!=") != neg))
+            v = found_when(fn, itd, n["c"])
+            if v is not None:
+                out.append((n, v))
     return out
 
 
 def found_branch(fn, itd):
-    """the statement executed when the lookup succeeded: then-branch of if(it != _pool.end()) (or else of ==)"""
-    for n in fn.nodes():
-        if n.get("k") == "If":
-            c = L.unwrap(n["c"])
-            if c.get("k") in ("OpCall", "Bin") and c.get("op") in ("!=", "=="):
-                ops = c.get("a") or [c.get("lhs"), c.get("rhs")]
-                txt = [render(L.unwrap(x)) for x in ops]
-                ds = [L.unwrap(x).get("d") for x in ops]
-                if itd in ds and any(t.endswith("_pool.end()") for t in txt):
-                    br = n.get("then") if c["op"] != "==" else n.get("else")
-                    if br is not None:
-                        return br
-                    # `if(it == end) abort/return;` followed by the work on the found entry: the rest of the enclosing block
-                    miss = n.get("then") if c["op"] == "==" else n.get("else")
-                    leaves = miss is not None and any((is_call(x) and x.get("noreturn")) or x.get("k") in ("Return", "Throw") for x in walk(miss))
-                    if leaves:
-                        for blk in fn.nodes():
-                            if blk.get("k") == "Block" and any(x is n for x in blk.get("s", [])):
-                                i = [x is n for x in blk["s"]].index(True)
-                                return {"k": "Block", "s": blk["s"][i + 1:], "l": n.get("l")}
+    """the statement executed when the lookup succeeded: the found side of the lookup test, or - for the guard-clause form
+    `if(not found) abort/return;` - the rest of the enclosing block"""
+    for n, fw in lookup_tests(fn, itd):
+        br = n.get("then") if fw else n.get("else")
+        if br is not None:
+            return br
+        miss = n.get("else") if fw else n.get("then")
+        leaves = miss is not None and any((is_call(x) and x.get("noreturn")) or x.get("k") in ("Return", "Throw") for x in walk(miss))
+        if leaves:
+            for blk in fn.nodes():
+                if blk.get("k") == "Block" and any(x is n for x in blk.get("s", [])):
+                    i = [x is n for x in blk["s"]].index(True)
+                    return {"k": "Block", "s": blk["s"][i + 1:], "l": n.get("l")}
     return None
 
 
